@@ -8,7 +8,9 @@
      trace : ','-separated event tokens or '-':
              XB.n  XE.n.b  SB.n SE.n SC.n  PB.n.ref PE.n.ref.(k|x)  CB.kind.n  CF.kind.n  TB.n TE.n
              MB.n  ME.n.(m|s|c)  RT.b
-     mode  : g|t|r, followed by m when the destination is a Mounter and MountFrom is set
+     mode  : g|t|r, followed by m when the destination is a Mounter and MountFrom is set, optionally
+             followed by /<5 bits>: which of PreCopy PostCopy OnCopySkipped OnMounted MountFrom are set
+             (default all); the invocations of nil callbacks are inserted by Model/CopyOpt.step_opt
              kind: pre post skip mounted mountfrom
    output: <id> ACC ret=<1|0|-> tag=<n|-> dst=<ids> cr=<ids|-> ms=<max src reads in flight> md=<max dst ops in flight>  (both '-' unless ret=1)
         or <id> REJ <index> <token>  (first event the transition system refuses) *)
@@ -74,6 +76,13 @@ let () =
                   g_foreign = (fun x -> get foreign false x);
                   g_ismf = (fun x -> get ismf false x);
                   g_dkey = (fun x -> let i = int_of_nat x in nat_of_int (if i < n then dkey.(i) else 1000000 + i)) } in
+        let smode, cbits = match String.split_on_char '/' smode with
+          | [m; b] when String.length b = 5 -> m, b
+          | [m] -> m, "11111"
+          | _ -> failwith "mode" in
+        let cs = function
+          | CPre -> cbits.[0] = '1' | CPost -> cbits.[1] = '1' | CSkip -> cbits.[2] = '1'
+          | CMounted -> cbits.[3] = '1' | CMountFrom -> cbits.[4] = '1' in
         let mount = String.length smode = 2 && smode.[1] = 'm' in
         let mode = match String.sub smode 0 1 with "g" -> MGraph | "t" -> MTagger | "r" -> MRefPush | _ -> failwith "mode" in
         let root = int_of_string sroot in
@@ -87,9 +96,9 @@ let () =
           match tr with
           | [] -> Ok st
           | e :: tr' ->
-            (match step g c st e with
+            (match step_opt cs g c st e with
              | None -> Error i
-             | Some st' ->
+             | Some (st', _) ->
                ms := max !ms (int_of_nat (inflight_src g st'));
                md := max !md (int_of_nat (inflight_dst g st'));
                go st' tr' (i + 1)) in
